@@ -66,7 +66,7 @@ def gen_refine(rng):
     return case
 
 
-def ref_run(case, labels, tmax):
+def ref_run(case, labels, tmax, flags=None):
     n = len(labels)
     tabs = simcases.Tables(case, labels)
     adj = adjacency(case["graph"])
@@ -78,7 +78,7 @@ def ref_run(case, labels, tmax):
     def dl(u, v, k):
         d = tabs.sis_duration_k(u, k)
         return [x for x in tabs.sis_delays_k(u, v, k) if case.get("sis_unfiltered") or x < d]
-    return plain_sis(n, nbrs, dur, dl, case["I0"], case["tmin"], tmax)
+    return plain_sis(n, nbrs, dur, dl, case["I0"], case["tmin"], tmax, flags=flags)
 
 
 def one_refine(case):
@@ -97,9 +97,16 @@ def one_refine(case):
             d = cand[int(case["hpick"] * len(cand)) % len(cand)]
             case = dict(case, tmin=-d, _zero_done=True)
     tmin = case["tmin"]
-    long_events, _ = ref_run(case, labels, tmin + case["span"])
+    flags = {}
+    long_events, _ = ref_run(case, labels, tmin + case["span"], flags)
     times = [e[0] for e in long_events]
     info = {"nontrivial": False, "skip": None}
+    if flags.get("coincident"):
+        # also attempts that do not succeed count: two sources reaching a node at one instant leave the
+        # infector open, an attempt at the instant of the target's recovery leaves the outcome open
+        # (memo-table lists make sums of the same delays in different orders coincide exactly)
+        info["skip"] = "coincident event times"
+        return [], info
     if len(set(times)) != len(times) - 0 and len(set(times)) != len(times):
         # coincident times among non-initial events: outside the property
         later = [t for t in times if t > tmin]
